@@ -205,6 +205,8 @@ def make_exc(name: str):
         return KeyError("injected")
     if name == "ValueError":
         return ValueError("injected")
+    if name == "TypeError":
+        return TypeError("before_sleep() missing 1 required keyword-only argument: 'registry'")
     if name == "AbortRetryError":
         return AbortRetryError()
     if name == "RetryExhaustedError":
@@ -241,6 +243,32 @@ def make_exc(name: str):
 
 
 CANCEL_KINDS = ("cancel", "kbd", "sysexit", "cancel_exc", "kbd_exc", "sysexit_exc")
+
+
+@dataclasses.dataclass(frozen=True)
+class QuotaClassification(Classification):
+    """Classification is an ordinary frozen dataclass: applications subclass it to carry more to their strategies."""
+
+    reset_in_s: float = 0.0
+
+
+class _EmptyCallable:
+    """A callable OBJECT rather than a function: sized and empty (so falsy) and, as it defines __eq__ without __hash__,
+    unhashable - a list-subclass recorder, a deferral queue, a @dataclass with __call__."""
+
+    __hash__ = None
+
+    def __init__(self, fn):
+        self.fn = fn
+
+    def __call__(self, *a, **kw):
+        return self.fn(*a, **kw)
+
+    def __len__(self):
+        return 0
+
+    def __eq__(self, other):
+        return self is other
 
 
 class _NoTruthValue:
@@ -401,6 +429,12 @@ class Harness:
         self.n[name] = i + 1
         return i
 
+    def shape(self, fn):
+        """The kind of object the caller's callbacks are (scenario key `cb_shape`)."""
+        if fn is not None and self.sc.get("cb_shape") == "empty":
+            return _EmptyCallable(fn)
+        return fn
+
     def cb_fault(self, name, defer=False):
         f = self.fault
         if f is None or f.get("kind") != "cb" or f["cb"] != name:
@@ -435,11 +469,17 @@ class Harness:
         self.cb_fault("classifier")
         k = getattr(e, "rv_klass", None) or "UNKNOWN"
         if self.cfg.get("use_classification"):
-            c = Classification(klass=EC[k], retry_after_s=getattr(e, "retry_after", None))
+            c = self.mk_classification(EC[k], getattr(e, "retry_after", None), idx)
             rec.cls_objs["last"] = c
             return c
         rec.cls_objs["last"] = None
         return EC[k]
+
+    def mk_classification(self, klass, ra, idx):
+        """Plain Classification on even attempts, an application subclass with a field of its own on odd ones."""
+        if isinstance(idx, int) and idx % 2:
+            return QuotaClassification(klass=klass, retry_after_s=ra, reset_in_s=float(idx))
+        return Classification(klass=klass, retry_after_s=ra)
 
     def result_classifier(self, r):
         rec = self.cur
@@ -447,7 +487,7 @@ class Harness:
             rec.trace.append(("rclassify", r.idx, True))
             self.cb_fault("rclassifier")
             if self.cfg.get("use_classification"):
-                c = Classification(klass=EC[r.rv_klass], retry_after_s=r.retry_after)
+                c = self.mk_classification(EC[r.rv_klass], r.retry_after, r.idx)
                 rec.cls_objs["last"] = c
                 return c
             rec.cls_objs["last"] = None
@@ -684,6 +724,24 @@ class Harness:
 
             if self.sc.get("bs_kind") == "lambda":
                 return lambda ctx, s: abs_(ctx, s)
+            f = self.fault
+            if f and f.get("kind") == "hook" and f.get("hook") == "before_sleep" and f.get("when") == "call":
+                # a coroutine FUNCTION can fail when it is called, before any coroutine exists: arguments are bound first (wrong arity,
+                # a missing keyword-only parameter, a partial with a keyword the function does not take)
+                def strict(ctx, s):
+                    h.cur.trace.append(("before_sleep", place, ctx.attempt, s))
+                    slow()
+                    h.hook_fault("before_sleep")  # raises at the planned invocation ...
+
+                    async def rest():
+                        await h.susp("before_sleep")
+
+                    return rest()  # ... and otherwise hands back the coroutine, like any `async def`
+
+                import inspect
+
+                inspect.markcoroutinefunction(strict)
+                return strict
             return abs_
 
         def bs(ctx, s):
@@ -751,9 +809,15 @@ class Harness:
         if event == "budget_exhausted" and self.budget is not None:
             # ground truth for "the window really is full", however the engine learnt it (refused consume(), remaining(), ...)
             (rec or self.cur).trace.append(("budget_level", Budget.remaining(self.budget), self.now()))
+        if self.sc.get("hook_edits_tags"):
+            # an adapter that labels the dict it was handed (tags["attempt"] = ..., tags.update(static_labels)): the dict belongs to this
+            # one delivery, so the edit may show in this event's log fields but never in what any LATER event delivers
+            tags["rv_label"] = (event, attempt)
         self.hook_fault("metric")
 
     def on_log(self, event, fields, rec=None):
+        if self.sc.get("hook_edits_tags"):
+            fields = {k: v for k, v in fields.items() if k != "rv_label" or v != (event, fields.get("attempt"))}  # this delivery's own label
         (rec or self.cur).trace.append(("log", event, _tags(fields)))
         self.hook_fault("log")
 
@@ -774,7 +838,7 @@ class Harness:
             )
             h.cb_fault(which)
 
-        return hook
+        return self.shape(hook)
 
     async def susp(self, tag):
         self.cur.suspensions += 1
@@ -812,12 +876,12 @@ class Harness:
             if where in (None, "none"):
                 return
             if deco:
-                pol_kw[name] = mk("policy")
+                pol_kw[name] = self.shape(mk("policy"))
                 return
             if where in ("policy", "both"):
-                pol_kw[name] = mk("policy")
+                pol_kw[name] = self.shape(mk("policy"))
             if where in ("call", "both"):
-                self.call_kw[name] = mk("call")
+                self.call_kw[name] = self.shape(mk("call"))
 
         put("sleep", self.mk_handler, place.get("handler", "none"))
         put("before_sleep", self.mk_before_sleep, place.get("before_sleep", "none"))
@@ -941,16 +1005,16 @@ class Harness:
         ckw = dict(self.call_kw)
         if not self.sc.get("no_hooks"):
             if self.kind == "deco":
-                ckw["on_metric"] = self.on_metric
-                ckw["on_log"] = self.on_log
+                ckw["on_metric"] = self.shape(self.on_metric)
+                ckw["on_log"] = self.shape(self.on_log)
             else:
                 # a fresh pair of hook objects for every call, each tied to its own call's record
-                ckw["on_metric"] = lambda event, attempt, sleep_s, tags, _r=rec: self.on_metric(event, attempt, sleep_s, tags, _r)
-                ckw["on_log"] = lambda event, fields, _r=rec: self.on_log(event, fields, _r)
+                ckw["on_metric"] = self.shape(lambda event, attempt, sleep_s, tags, _r=rec: self.on_metric(event, attempt, sleep_s, tags, _r))
+                ckw["on_log"] = self.shape(lambda event, fields, _r=rec: self.on_log(event, fields, _r))
         if self.cfg.get("operation"):
             ckw["operation"] = self.cfg["operation"]
         if self.use_abort:
-            ckw["abort_if"] = self.abort_if
+            ckw["abort_if"] = self.shape(self.abort_if)
         for k_ in e.get("drop_call_kw") or ():
             # this call passes no per-call handler / hook / sleeper although other calls on the same object do
             ckw.pop(k_, None)
@@ -1001,7 +1065,17 @@ class Harness:
 
     def _deco_build(self, ckw, fn):
         kw = dict(self.retry_kw)
-        return retry_decorator(**kw, **ckw)(fn)
+        wrapped = retry_decorator(**kw, **ckw)(fn)
+        if self.sc.get("ctx_decoy"):
+            # the SAME function is wrapped a second time with other settings (a patient variant next to the fast one); both wrappers
+            # stay alive, the first one is the one that gets called
+            self.decoy_decorated = retry_decorator(
+                max_attempts=kw["max_attempts"] + 3,
+                deadline_s=kw["deadline_s"] * 2 + 10.0,
+                classifier=lambda e: EC.TRANSIENT,
+                strategy=lambda ctx: 0.0,
+            )(fn)
+        return wrapped
 
     def call_sync(self, k):
         rec = self._begin(k)
